@@ -21,3 +21,13 @@ IEF = {
         '`detect`, and detection is documented as not implemented for databases (detect_db_table raises '
         'NotImplementedError; verify_db_table never sets detect)',
 }
+
+# Near-mirror pairs that are one-sided on purpose: (function short name, first line of statement 1)
+MIRROR = {
+    ('FilesComparison.check_file', 'try:'):
+        'the two missing-file handlers differ by design: a missing reference yields the initialise-from-actual hint '
+        'and returns, a missing actual reports through add_failures',
+    ('PandasComparison.write_temporaries', 'if expected is not None and (not expected_path):'):
+        'sequential dependency: the expected block rebinds expected_path so that the actual block can name it in its '
+        'compare command; the actual block has no later reader of actual_path',
+}
